@@ -3,6 +3,7 @@ import PortusModel.Driver.Orc
 import PortusModel.Driver.Bkd
 import PortusModel.Driver.Ctl
 import PortusModel.Driver.Lang
+import PortusModel.Driver.Rt
 /-! `pmodel`: the line-protocol driver around the model's executable definitions. -/
 open Portus.Driver
 
@@ -13,6 +14,7 @@ def dispatch (cmd : String) (args : List String) : String :=
   | "ENC" => ((encDp args).orElse fun _ => encCtl args).getD "BADARG"
   | "RT" => rt args
   | "BKD" => bkd args
+  | "RUN" => runCmd args
   | "CMP" => cmp args
   | "AST" => ast args
   | "ORC" => (match args with
